@@ -55,7 +55,8 @@ structure Inv (s : State) : Prop where
   pops_fifo : popIds s.served ++ s.waiters.map (·.id) = List.range s.nextPop
   /-- every decision is in flight or performed, exactly once -/
   account : ∀ e, s.inflight.count e + s.completed.count e = s.served.count e
-  cancel_dead : ∀ e ∈ s.served, e.out = Out.canceled → s.alive = false
+  /-- a pop is canceled only by the destructor or by a push whose item construction threw -/
+  cancel_dead : ∀ e ∈ s.served, e.out = Out.canceled → s.alive = false ∨ e.pop ∈ s.throws
   dead_no_waiters : s.alive = false → s.waiters = []
   no_ok : ∀ e ∈ s.served, e.out ≠ Out.ok
   exc_unblock : excs s.served = s.unblocks
@@ -171,7 +172,7 @@ theorem inv_destroy (s : State) (h : Inv s) : Inv (stepDestroy s).1 := by
   · simp only [vals_append, vals_canceled, List.append_nil]; exact h2
   · simp only [popIds_append, popIds_canceled, List.map_nil, List.append_nil]; exact h4
   · intro e; have := h5 e; csimp; omega
-  · intro _ _ _; rfl
+  · intro _ _ _; exact Or.inl rfl
   · intro _; rfl
   · intro e he
     simp only [List.mem_append, List.mem_map] at he
@@ -209,15 +210,42 @@ theorem inv_deliver (s : State) (k : Nat) (h : Inv s) : Inv (stepDeliver s k).1 
     simp only [List.count_append] at *
     omega
 
-theorem pushThrow_state (s : State) : (stepPushThrow s).1 = s := by
-  unfold stepPushThrow; split <;> rfl
+theorem inv_pushthrow (s : State) (ha : s.alive = true) (h : Inv s) : Inv (stepPushThrow s).1 := by
+  obtain ⟨h1, h2, h3, h4, h5, h6, h7, h8, h9⟩ := h
+  unfold stepPushThrow
+  cases hw : s.waiters with
+  | nil => exact ⟨h1, h2, h3, h4, h5, h6, h7, h8, h9⟩
+  | cons w ws =>
+    have hi : s.items = [] := h1 (by simp [hw])
+    simp only [hw] at h4 ⊢
+    refine ⟨?_, ?_, h3, ?_, ?_, ?_, ?_, ?_, ?_⟩ <;> dsimp only
+    · intro _; exact hi
+    · have : vals [(⟨w, Out.canceled⟩ : Ev)] = [] := rfl
+      simp only [vals_append, this, List.append_nil]; exact h2
+    · rw [← h4]; simp
+    · intro e; have := h5 e; csimp; omega
+    · intro e he hc
+      simp only [List.mem_append, List.mem_singleton] at he ⊢
+      rcases he with he | he
+      · rcases h6 e he hc with h | h
+        · exact Or.inl h
+        · exact Or.inr (Or.inl h)
+      · subst he; exact Or.inr (Or.inr rfl)
+    · intro hd; rw [ha] at hd; simp at hd
+    · intro e he
+      simp only [List.mem_append, List.mem_singleton] at he
+      rcases he with he | he
+      · exact h8 e he
+      · subst he; simp
+    · have : excs [(⟨w, Out.canceled⟩ : Ev)] = [] := rfl
+      simp only [excs_append, this, List.append_nil]; exact h9
 
 theorem inv_step (s : State) (op : Op) (h : Inv s) : Inv (step s op).1 := by
   unfold step
   cases op <;> simp only <;> (try split) <;> (try unfold stepLive) <;> (try simp only) <;>
     first
     | exact h
-    | (rw [pushThrow_state]; exact h)
+    | exact inv_pushthrow s (by assumption) h
     | exact inv_push s _ _ (by assumption) h
     | exact inv_pop s _ (by assumption) h
     | exact inv_upop s _ (by assumption) h
@@ -283,6 +311,13 @@ theorem push_abs (s : Q.State) (p v : Nat) :
   | nil => simp [abs, hw, forgetRes]
   | cons w ws => simp [abs, hw, forgetRes, forget, forgetOut]
 
+theorem pushthrow_abs (s : Q.State) :
+    VQ.stepPushThrow (abs s) = (abs (Q.stepPushThrow s).1, forgetRes (Q.stepPushThrow s).2) := by
+  unfold VQ.stepPushThrow Q.stepPushThrow
+  cases hw : s.waiters with
+  | nil => simp [abs, hw, forgetRes]
+  | cons w ws => simp [abs, hw, forgetRes, forget, forgetOut]
+
 theorem pop_abs (s : Q.State) (c : Nat) :
     VQ.stepPop (abs s) c = (abs (Q.stepPop s c).1, forgetRes (Q.stepPop s c).2) := by
   unfold VQ.stepPop Q.stepPop
@@ -329,9 +364,7 @@ theorem step_abs (s : Q.State) (op : Op) :
     · rfl
   | pushthrow =>
     simp only [e]; split
-    · simp only [VQ.stepLive, Q.stepLive, Q.stepPushThrow]
-      have hw : (abs s).waiters = s.waiters := rfl
-      rw [hw]; split <;> rfl
+    · exact pushthrow_abs s
     · rfl
   | pop c =>
     simp only [e]; split
